@@ -642,14 +642,15 @@ void f_range (int code) {
         if (code & 0x01)
           to = len - to;
 #ifdef OLD_RANGE_BEHAVIOR
-        else if (to < 0)
+        /* the `<' is applied first (docs; same as buffers and f_extract_range) */
+        if (to < 0)
           to += len;
 #endif
         from = (--sp)->u.number;
         if (code & 0x10)
           from = len - from;
 #ifdef OLD_RANGE_BEHAVIOR
-        else if (from < 0)
+        if (from < 0)
           from += len;
 #endif
         if (from < 0)
